@@ -27,7 +27,8 @@
    test_return_as_args_advanced_different_order); the property text excludes them and so does the model.   *)
 From Coq Require Import List Arith Bool Permutation.
 From PV Require Import Base.Exn Model.ValidateSem Spec.ValidateSpec Proofs.ValidateDict Proofs.ValidateRef
-  Proofs.ValidateBind Proofs.ValidateGate Proofs.ValidateByName Proofs.ValidateSpecLink Gen.Validate.
+  Proofs.ValidateBind Proofs.ValidateGate Proofs.ValidateByName Proofs.ValidateSpecLink Gen.Validate
+  Model.ValidateSources Spec.ValidateSourcesSpec Proofs.ValidateSources Gen.ValidateSources.
 Import ListNotations.
 
 Definition vrun {value : Type} (is_none : value -> bool) :=
@@ -125,6 +126,30 @@ Theorem C13_external_supplies_when_absent : forall value is_none sg env dc is_as
 Proof. intros. rewrite vrun_ref in *. eapply external_supplies_when_absent; eauto. Qed.
 Print Assumptions C13_external_supplies_when_absent.
 
+(* SEVERAL PARAMETERS FOR ONE NAME (two sources for one argument: a current and a legacy environment variable, the JSON
+   body and the query string ...).  No hypothesis on the Parameter list: C13_external_only_when_absent above replaces the
+   source of EVERY Parameter declared under the name, and a value the caller passes reaches the body through the chain of
+   a Parameter of that name (the one parameter_dict keeps, the last declared) - never a value of one of the sources *)
+Theorem C13_passed_value_beats_every_source : forall value is_none sg env dc is_async c j b n w,
+  s_varpos sg = false ->
+  d_ignore_input dc = false -> List.length (c_args c) <= List.length (pos_params value sg) ->
+  NoDup (keys (named_assignment value sg c)) -> self_guard value sg dc c = true ->
+  vrun is_none sg env dc is_async c = (j, FBody b) -> In (n, w) (named_assignment value sg c) ->
+  match lookup_param value dc n with
+  | Some p => In p (d_params dc) /\ p_name p = n /\
+              (forall v, spec_param value is_none p w = VPass v ->
+                         (d_mode dc <> KWARGS_WITHOUT_NONE \/ is_none v = false) -> dget n b = Some v)
+  | None => declared value dc n = false
+  end.
+Proof.
+  intros value is_none sg env dc is_async c j b n w NV Ig L ND G H I. rewrite vrun_ref in *.
+  assert (S := supplied_reaches_body value is_none sg env NV dc is_async c j b n w Ig L ND G H I).
+  rewrite (lookup_param_declared value dc n).
+  destruct (lookup_param value dc n) as [p|] eqn:Lk; [|reflexivity].
+  split; [eapply lookup_param_In; eassumption|]. split; [eapply lookup_param_name; eassumption | exact S].
+Qed.
+Print Assumptions C13_passed_value_beats_every_source.
+
 (* ignore_input=True: the caller's input is ignored *)
 Theorem C13_ignore_input : forall value is_none sg env dc is_async c,
   s_varpos sg = false ->
@@ -132,6 +157,112 @@ Theorem C13_ignore_input : forall value is_none sg env dc is_async c,
   vrun is_none sg env dc is_async c = vrun is_none sg env dc is_async (Build_call value [] []).
 Proof. intros. rewrite vrun_ref in *. eapply ignore_input_ignores; eauto. Qed.
 Print Assumptions C13_ignore_input.
+
+(* ---- THE CONCRETE SOURCES: environment variable, Flask JSON / form / query / header value, deserializer.
+   Gen/ValidateSources.v is regenerated on every run from environment_variable_parameter.py and flask_parameters.py
+   (has_value, load_value, get_dict of every class, resolved along the class hierarchy); Model/ValidateSources.v
+   interprets the descriptions over a world (request: JSON body, form and query MultiDicts, headers; environment);
+   Spec/ValidateSourcesSpec.v says, per kind of source, when the key is present and which value the source holds. ---- *)
+Theorem C13_sources_are_reference :
+  flask_json_parameter = ref_flask_json /\ flask_form_parameter = ref_flask_form /\ flask_get_parameter = ref_flask_get /\
+  flask_header_parameter = ref_flask_header /\ generic_flask_deserializer = ref_deserializer /\
+  environment_variable_parameter = ref_environment /\ env_var_rule = ref_env_var_rule /\
+  flask_path_parameter_is_external = false /\ derives InvalidHeaderC ParameterExceptionC = true.
+Proof. repeat split. Qed.
+Print Assumptions C13_sources_are_reference.
+
+Definition gen_class (k : source_kind) : source_class :=
+  match k with
+  | KJson => flask_json_parameter | KForm => flask_form_parameter | KQuery => flask_get_parameter
+  | KHeader => flask_header_parameter | KEnv => environment_variable_parameter
+  end.
+(* a source object: its class, its key (self.name; for KEnv the variable env_var_rule chose), value_type == list *)
+Definition gen_source (k : source_kind) (key : name) (as_list catch : bool) : source :=
+  {| s_cls := gen_class k; s_key := key; s_list := as_list; s_catch := catch |}.
+
+Lemma gen_source_ref : forall k key l c, gen_source k key l c = source_of k key l c.
+Proof. intros [] key l c; reflexivity. Qed.
+
+(* has_value() is exactly "the key is present in the source" (inside a request context for the Flask sources; outside
+   one every access to `request` raises RuntimeError) *)
+Theorem C13_source_has_value_iff_present : forall value hkey kind (w : world value) key l c,
+  (in_context value kind w = true -> src_has value hkey (gen_source kind key l c) w = Ok (present value hkey kind w key)) /\
+  (in_context value kind w = false -> src_has value hkey (gen_source kind key l c) w = Raise RuntimeErrorC).
+Proof.
+  intros. rewrite gen_source_ref. split; intro H; [now apply has_value_is_present | now apply has_value_outside_context].
+Qed.
+Print Assumptions C13_source_has_value_iff_present.
+
+(* load_value() returns the value the source holds: the JSON member, the first value of the form field, the first value of
+   the query key - all its values as a list when value_type is list -, the header looked up by its WSGI key, the
+   environment variable without surrounding white space; and a source in which the key is present holds one *)
+Theorem C13_source_load_value : forall value hkey strip of_list from_json kind (w : world value) key l c,
+  (forall v, source_value value hkey strip of_list kind l w key = Some v ->
+             src_load value hkey strip of_list from_json (gen_source kind key l c) w = WOk v) /\
+  (present value hkey kind w key = true -> world_ok value w = true ->
+   exists v, source_value value hkey strip of_list kind l w key = Some v).
+Proof.
+  intros. rewrite gen_source_ref. split.
+  - intros v H. now apply load_value_is_source_value.
+  - intros P O. now apply present_source_has_a_value.
+Qed.
+Print Assumptions C13_source_load_value.
+
+(* GenericFlaskDeserializer: has_value() = the request is a JSON request; load_value() = cls.from_json(request.json),
+   a ValidatorException becoming a ParameterException without parameter name, any other Exception a ParameterException
+   carrying the name when catch_exception is set *)
+Theorem C13_deserializer_source : forall value hkey strip of_list from_json (w : world value) rq key l c,
+  wd_request w = Some rq ->
+  let s := {| s_cls := generic_flask_deserializer; s_key := key; s_list := l; s_catch := c |} in
+  src_has value hkey s w = Ok (is_some (fr_json rq)) /\
+  (forall body, fr_json rq = Some body ->
+    src_load value hkey strip of_list from_json s w =
+    match from_json body with
+    | Ok v => WOk v
+    | Raise e =>
+        if derives e ValidatorExceptionC then WRaise ParameterExceptionC None
+        else if derives e ExceptionC then (if c then WRaise ParameterExceptionC (Some key) else WRaise e None)
+        else WRaise e None
+    end) /\
+  (fr_json rq = None ->      (* load_value() without has_value(): request.json raises inside the try block *)
+    src_load value hkey strip of_list from_json s w = if c then WRaise ParameterExceptionC (Some key) else WRaise ExceptionC None).
+Proof.
+  intros value hkey strip of_list from_json w rq key l c Hr s. split; [|split].
+  - assert (H := deserializer_has_value value hkey w key l c). rewrite Hr in H. exact H.
+  - intros body Hj. exact (deserializer_load_value value hkey strip of_list from_json w rq body key l c Hr Hj).
+  - intro Hj. exact (deserializer_load_not_json value hkey strip of_list from_json w rq key l c Hr Hj).
+Qed.
+Print Assumptions C13_deserializer_source.
+
+(* C13_external_only_when_absent over the concrete sources: the declaration binds Parameters to source objects
+   (bind_sources evaluates has_value / load_value in the world); the caller passes a value for n: whatever the request
+   and the environment hold for the sources of the Parameter(s) named n - two worlds in which all other sources look
+   the same - the run is the same, journal included *)
+Theorem C13_sources_only_when_absent :
+  forall value is_none hkey strip of_list from_json sg env n (w w' : world value) sps ps ps' m strict ignore is_async c v,
+  s_varpos sg = false ->
+  bind_sources value hkey strip of_list from_json w sps = Ok ps ->
+  bind_sources value hkey strip of_list from_json w' sps = Ok ps' ->
+  agree_outside value hkey strip of_list from_json n w w' sps ->
+  caller_gives value sg (deco_of value ps m strict ignore) c n v ->
+  vrun is_none sg env (deco_of value ps' m strict ignore) is_async c = vrun is_none sg env (deco_of value ps m strict ignore) is_async c.
+Proof. intros. rewrite vrun_ref in *. eapply sources_only_when_absent; eassumption. Qed.
+Print Assumptions C13_sources_only_when_absent.
+
+(* ... and a Parameter bound to a source in which its key is present is given the value of the source
+   (external_gives: the hypothesis of C13_external_supplies_when_absent) *)
+Theorem C13_source_gives_its_value : forall value hkey strip of_list from_json kind (w : world value) key l c p0 p,
+  in_context value kind w = true -> world_ok value w = true -> present value hkey kind w key = true ->
+  with_source value hkey strip of_list from_json w (p0, Some (gen_source kind key l c)) = Ok p ->
+  exists v, source_value value hkey strip of_list kind l w key = Some v /\ external_gives value p v /\ p_name p = p_name p0.
+Proof.
+  intros value hkey strip of_list from_json kind w key l c p0 p Ctx O P W. rewrite gen_source_ref in W.
+  destruct (ext_of_source_spec value hkey strip of_list from_json kind w key l c Ctx O) as [x [X [Hh Hl]]].
+  unfold with_source in W. cbn [snd fst] in W. rewrite X in W. injection W as <-.
+  destruct (Hl P) as [v [Sv Lv]]. exists v. split; [assumption|]. split; [|reflexivity].
+  exists x. cbn [p_ext]. repeat split; [now rewrite Hh | assumption].
+Qed.
+Print Assumptions C13_source_gives_its_value.
 
 (* ---- witnesses over a small universe: values are numbers, 0 plays None ---- *)
 Definition nnone (v : nat) : bool := Nat.eqb v 0.
@@ -275,4 +406,64 @@ Proof.
   cbv zeta. repeat split.
   - right. now left.
   - eexists. repeat split.
+Qed.
+
+(* several Parameters for ONE name: def f(a, b, c=9); a current and a legacy source for b, both holding a value, and a
+   plain Parameter b declared last.  The caller passes b: the body sees the chain output of the caller's value, none
+   of the sources is consulted (journal: only the chain of the last declaration runs, once) *)
+Example C13_duplicate_names_hypotheses_satisfiable :
+  let cur := Some {| e_has := true; e_load := Ok 7 |} in
+  let legacy := Some {| e_has := true; e_load := Ok 8 |} in
+  let dc := ex_deco [mkparam 2 [] false None cur; pa; mkparam 2 [] false None legacy; mkparam 2 [plus_one] true None None; pc] ARGS in
+  let c := {| c_args := [3]; c_kwargs := [(2, 4)] |} in
+  NoDup (keys (named_assignment nat ex_sig c)) /\ self_guard nat ex_sig dc c = true /\
+  caller_gives nat ex_sig dc c 2 4 /\
+  lookup_param nat dc 2 = Some (mkparam 2 [plus_one] true None None) /\
+  vrun nnone ex_sig no_env dc false c = ([(2, 0, 4); (1, 0, 3); (1, 1, 3)], FBody [(1, 4); (2, 5); (3, 4)]) /\
+  (* another world: the current source is gone, the legacy one broken - nothing changes *)
+  vrun nnone ex_sig no_env (replace_ext nat dc 2 (Some {| e_has := true; e_load := Raise KeyErrorC |})) false c
+  = vrun nnone ex_sig no_env dc false c.
+Proof.
+  cbv zeta. repeat split.
+  - repeat constructor; cbn; intuition discriminate.
+  - now left.
+Qed.
+
+(* the concrete sources: two EnvironmentVariableParameters for the name 2 reading the variables 20 (current) and 21 (legacy),
+   a query parameter for the name 3; the caller passes 2: the environment may hold anything under 20 and 21 *)
+Definition ex_hkey (k : name) : name := k.
+Definition ex_strip (v : nat) : nat := v.
+Definition ex_of_list (l : list nat) : nat := List.length l.
+Definition ex_from_json (b : json_body nat) : outcome nat := Ok 1.
+Definition ex_request (args : mdict nat) : frequest nat := {| fr_json := None; fr_form := []; fr_args := args; fr_headers := [] |}.
+Definition ex_sps : list (sparam nat) :=
+  [ (pa, None);
+    (mkparam 2 [plus_one] false None None, Some (gen_source KEnv 20 false true));
+    (mkparam 2 [plus_one] false None None, Some (gen_source KEnv 21 false true));
+    (mkparam 3 [] false None None, Some (gen_source KQuery 3 false true)) ].
+
+Example C13_concrete_sources_hypotheses_satisfiable :
+  let w := {| wd_request := Some (ex_request [(3, [6; 7])]); wd_environ := [(20, 5)] |} in
+  let w' := {| wd_request := Some (ex_request [(3, [6; 7])]); wd_environ := [(21, 8); (20, 2)] |} in
+  let c := {| c_args := [3; 4]; c_kwargs := [] |} in
+  exists ps ps',
+    bind_sources nat ex_hkey ex_strip ex_of_list ex_from_json w ex_sps = Ok ps /\
+    bind_sources nat ex_hkey ex_strip ex_of_list ex_from_json w' ex_sps = Ok ps' /\
+    agree_outside nat ex_hkey ex_strip ex_of_list ex_from_json 2 w w' ex_sps /\
+    caller_gives nat ex_sig (deco_of nat ps KWARGS_WITH_NONE true false) c 2 4 /\
+    (* the caller passes a and b, the query string supplies c (first of its two values) *)
+    snd (vrun nnone ex_sig no_env (deco_of nat ps KWARGS_WITH_NONE true false) false c) = FBody [(1, 4); (2, 5); (3, 6)] /\
+    snd (vrun nnone ex_sig no_env (deco_of nat ps' KWARGS_WITH_NONE true false) false c) = FBody [(1, 4); (2, 5); (3, 6)] /\
+    (* the caller passes a only: the variables supply b (here the last declared one that has a value) *)
+    snd (vrun nnone ex_sig no_env (deco_of nat ps' KWARGS_WITH_NONE true false) false {| c_args := [3]; c_kwargs := [] |})
+    = FBody [(1, 4); (2, 9); (3, 6)] /\
+    present nat ex_hkey KQuery w 3 = true /\ source_value nat ex_hkey ex_strip ex_of_list KQuery false w 3 = Some 6 /\
+    source_value nat ex_hkey ex_strip ex_of_list KQuery true w 3 = Some 2 /\
+    present nat ex_hkey KEnv w 21 = false /\ world_ok nat w = true.
+Proof.
+  cbv zeta. eexists. eexists. split; [reflexivity|]. split; [reflexivity|]. repeat split.
+  - intros sp s I E N. cbn [ex_sps In] in I.
+    destruct I as [<-|[<-|[<-|[<-|[]]]]]; cbn [snd fst] in *; try discriminate E; try (exfalso; apply N; reflexivity).
+    injection E as <-. reflexivity.
+  - right. now left.
 Qed.
